@@ -90,6 +90,15 @@ theorem C13_labeled_max_min {α : Type} [LinearOrder α] (lowest highest : α) (
       rw [← this]; exact hv0
     · exact h
 
+/-- **C13-T1 (labeled_max / labeled_min, integer dtypes).** For every integer dtype whose range contains the
+data, the models `maxInt`/`minInt` (identities `numeric_limits<T>::lowest()`/`max()` = the ends of the range)
+return the maximum / minimum of every non-empty label — for values of both signs. -/
+theorem C13_labeled_max_min_int (dt : DT) (n : Nat) (px : List (Int × Int)) (l : Nat) (hl : l < n)
+    (hne : valuesOf px (l : Int) ≠ []) (hr : ∀ v ∈ valuesOf px (l : Int), dt.InRange v) :
+    (∃ m, (maxInt dt n px)[l]? = some m ∧ m ∈ valuesOf px (l : Int) ∧ ∀ v ∈ valuesOf px (l : Int), v ≤ m) ∧
+    (∃ m, (minInt dt n px)[l]? = some m ∧ m ∈ valuesOf px (l : Int) ∧ ∀ v ∈ valuesOf px (l : Int), m ≤ v) :=
+  C13_labeled_max_min dt.lo dt.hi n px l hl hne (fun v hv => (hr v hv).1) (fun v hv => (hr v hv).2)
+
 /-- **C13-T1/T6 (labeled_size, fullhistogram).** Bin `l` of the model of `compute_histogram` counts the
 pixels whose value is `l` (non-negative data, `n` bins). -/
 theorem C13_histogram_counts (n : Nat) (vals : List Int) (hv : ∀ v ∈ vals, 0 ≤ v) (l : Nat) (hl : l < n) :
